@@ -1983,3 +1983,65 @@ def _(it, a, info):
     cuts = cuts[:lim - 1]; out = []; st = lo
     for c in cuts: out.append(SliceRef(base, st, c)); st = c + 1
     out.append(SliceRef(base, st, hi)); return ListIter(out)
+
+# ------------------------------------------------------------------ thread_local! (state lives in the interpreter's per-execution statics)
+@model('LocalKey::new')
+def _(it, a, info): return Agg('LocalKey', [a[0]])
+def _tls_ptr(it, key):
+    k = deref(key)
+    if not (isinstance(k, Agg) and k.ty == 'LocalKey'): raise Unsupported('thread-local key %r' % (k,))
+    p = it.call_value(k.f[0], [none()])
+    if not isinstance(p, Ref): raise Unsupported('thread-local accessor returned %r' % (p,))
+    return p
+@model('LocalKey::with', 'LocalKey::try_with')
+def _(it, a, info):
+    r = call_closure_like(it, a[1], [_tls_ptr(it, a[0])])
+    return ok(r) if info['method'] == 'try_with' else r
+@model('LocalKey::with_borrow', 'LocalKey::with_borrow_mut')
+def _(it, a, info):
+    p = _tls_ptr(it, a[0]); c = deref(p)
+    return call_closure_like(it, a[1], [Ref(c.cell, 0) if isinstance(c, RBox) else p])
+@model('LocalKey::get')
+def _(it, a, info): return deep_copy(deref(_tls_ptr(it, a[0])).cell[0])
+@model('LocalKey::set')
+def _(it, a, info): deref(_tls_ptr(it, a[0])).cell[0] = a[1]; return UNIT
+@model('LocalKey::replace')
+def _(it, a, info):
+    c = deref(_tls_ptr(it, a[0])); o = c.cell[0]; c.cell[0] = a[1]; return o
+@model('LocalKey::take')
+def _(it, a, info):
+    c = deref(_tls_ptr(it, a[0])); o = c.cell[0]; c.cell[0] = default_of(it, (info.get('owner_gen') or [None])[0] and parse_ty(info['owner_gen'][0])[3][0]); return o
+@model('EagerStorage::new')
+def _(it, a, info): return Agg('EagerStorage', [a[0]])
+@model('EagerStorage::get')
+def _(it, a, info): return Ref(deref(a[0]).f, 0)
+@model('LazyStorage::new')
+def _(it, a, info): return Agg('LazyStorage', [UNINIT])
+@model('LazyStorage::get_or_init')
+def _(it, a, info):
+    s = deref(a[0])
+    if s.f[0] is UNINIT:
+        init = a[1]
+        v = None
+        if isinstance(init, Enum) and init.variant == 'Some':
+            o = deref(init.f[0])
+            if isinstance(o, Enum) and o.variant == 'Some': v = o.f[0]
+        s.f[0] = v if v is not None else call_closure_like(it, a[2], [])
+    return Ref(s.f, 0)
+@model('needs_drop')
+def _(it, a, info):
+    t = (info.get('mgen') or [''])[0]
+    return bool(re.search(r'\b(String|Vec|Box|Rc|Arc|HashMap|HashSet|BTreeMap|BTreeSet|VecDeque)\b', t))
+@model('RefCell::borrow', 'RefCell::borrow_mut', 'RefCell::try_borrow', 'RefCell::try_borrow_mut', 'Cell::get_mut', 'RefCell::get_mut', 'Cell::as_ptr', 'RefCell::as_ptr')
+def _(it, a, info):
+    r = Ref(deref(a[0]).cell, 0)
+    return ok(r) if info['method'].startswith('try_') else r
+@model('Cell::take', 'RefCell::take')
+def _(it, a, info):
+    c = deref(a[0]); o = c.cell[0]; c.cell[0] = default_of(it, (info.get('owner_gen') or [None])[0]); return o
+@model('Cell::update')
+def _(it, a, info):
+    c = deref(a[0]); c.cell[0] = call_closure_like(it, a[1], [c.cell[0]]); return UNIT
+@model('Cell::replace', 'RefCell::replace')
+def _(it, a, info):
+    c = deref(a[0]); o = c.cell[0]; c.cell[0] = a[1]; return o
